@@ -136,7 +136,7 @@ def check_stats(ctx, coq_ok):
     cfgs = [(1, 2, 1), (2, 1, 1)] if ctx.tier == "quick" else [(1, 2, 1), (2, 1, 1), (2, 2, 1), (1, 2, 2), (3, 1, 1)]
     for nt, per, nd in cfgs:
         rc, out = ctx.vh("vh-api", ["stats-sched", str(nt), str(per), str(nd)], timeout=1200)
-        lines = [json.loads(l) for l in out.splitlines() if l.startswith("{")]
+        lines = [json.loads(l) for l in out.split("\n") if l.startswith("{")]
         if rc != 0 or not lines or "runs" not in lines[-1]:
             ctx.broken.append("K_stats: scheduler run failed (%d %d %d)" % (nt, per, nd))
             ctx.log(out[-800:])
@@ -180,7 +180,7 @@ def check_stats(ctx, coq_ok):
     g, per, nd = (8, 40000, 400) if ctx.tier == "quick" else (16, 400000, 4000)
     rc, out = ctx.vh("vh-api", ["stats-stress", str(g), str(per), str(nd)], timeout=600)
     try:
-        o = json.loads(out.strip().splitlines()[-1])
+        o = json.loads(out.strip().split("\n")[-1])
     except Exception:
         ctx.broken.append("stats-stress failed: " + out[-300:])
         return
@@ -211,7 +211,7 @@ def check_capture_sizes(ctx):
             hists.append(h)
     for proto in ("redis", "http"):
         rc, out = ctx.vh("vh-match", ["seq"], inp="\n".join(M.hist_line(proto, h) for h in hists) + "\n", timeout=900)
-        lines = [l for l in out.splitlines() if l.startswith("{")]
+        lines = [l for l in out.split("\n") if l.startswith("{")]
         if rc != 0 or len(lines) != len(hists):
             ctx.broken.append("capture-size run failed for %s" % proto)
             continue
@@ -274,7 +274,7 @@ def run(ctx):
             for _ in range(5):
                 rc, out = ctx.vh("vh-api", ["stats-stress", "16", "200000", "20000"], timeout=600)
                 try:
-                    o = json.loads(out.strip().splitlines()[-1])
+                    o = json.loads(out.strip().split("\n")[-1])
                 except Exception:
                     break
                 if not (o["matched"] == o["packets"] == o["bytes3"] == o["expected"]):
